@@ -52,3 +52,4 @@ CLAIM = dict(
                'correspondence of the compiled model against the real solver + independent dimensional-analysis '
                'oracle on generated programs and mutants'),
 )
+CLAIM["text"] += " isDType_trivially_satisfied_iff: a `T: Dim` constraint is discarded as trivially satisfied exactly for dimension types that mention neither a type variable nor a type parameter, so no Dim obligation on a type parameter is dropped (numbat repaired: 64bad51; the program stream drops Dim bounds as a mutation, the solve stream contains closed `isd` systems)."
